@@ -19,6 +19,11 @@ Clauses
   C12.truncated_samples    ... and exactly the whole frames present are returned
   C12.bad_header_ioerror   not NIST_1A / shorter than 1024 bytes / header size < 1024 -> IOError
   C12.raised               unexpected exception on a well-formed (or merely truncated) file
+
+"any header size": besides 1024-byte headers and larger headers that are merely padded, kind "longhdr" builds headers of
+2048 / 3072 bytes whose FIELD LIST runs past byte 1024 (end_head in the 2nd / 3rd 1024-byte block): a chosen line (one of
+the fields the decoder needs, a descriptive field, or end_head itself) straddles byte 1024 at a chosen offset, or its
+newline is byte 1024 / byte 1023, and the needed fields are distributed before / after byte 1024 in rotating order.
 """
 import io
 import os
@@ -111,6 +116,80 @@ def build_header(c: int, n: int, coding: str, hdr: int, extra: bool, declared_hd
     return h.ljust(hdr, b" ")
 
 
+ESSENTIAL = ("channel_count", "sample_count", "sample_rate", "sample_n_bytes", "sample_byte_format", "sample_coding")
+CROSS_LINES = ESSENTIAL + ("filler", "end_head")
+
+
+def _filler_line(idx: int, total: int) -> bytes:
+    """A descriptive -s field line of exactly `total` bytes including its newline (one token, no blanks)."""
+    for k in range(1, 200):
+        ln = ("note_%02d -s%d %s\n" % (idx, k, "abcdefghij"[idx % 10] * k)).encode()
+        if len(ln) == total:
+            return ln
+    raise ValueError("no filler line of %d bytes" % total)
+
+
+def _fill_to(buf: bytes, target: int, idx: int):
+    """Append descriptive lines so that len(buf) == target. -> (buf, next idx)"""
+    gap = target - len(buf)
+    assert gap == 0 or gap >= 14, (gap, target)
+    while gap > 0:
+        take = 40 if gap >= 80 else (gap if gap < 54 else gap - 20)
+        buf += _filler_line(idx, take)
+        idx += 1
+        gap = target - len(buf)
+    return buf, idx
+
+
+def build_long_header(c: int, n: int, coding: str, hdr: int, lay: dict) -> bytes:
+    """Header of `hdr` (2048 / 3072) bytes whose field list extends past byte 1024.
+    lay = {cross: which line crosses byte 1024 (a name of ESSENTIAL, 'filler' or 'end_head'),
+           at:    how many bytes of that line INCLUDING its newline lie before byte 1024 (1..len(line)+1; len(line) puts the
+                  newline on byte 1024, len(line)+1 on byte 1023 so that the next line starts exactly at byte 1024; -1 / -2
+                  are shorthands for these two),
+           rot, split: the essential fields (other than the crossing one) are taken in ESSENTIAL order rotated by `rot`;
+                  the first `split` of them come before byte 1024, the others after}
+    For hdr 3072 the fields after byte 1024 are again split around byte 2048, which a descriptive line straddles, and
+    end_head lies in the third block."""
+    w = sample_width(coding)
+    text = {"channel_count": "channel_count -i %d" % c, "sample_count": "sample_count -i %d" % n, "sample_rate": "sample_rate -i 8000",
+            "sample_n_bytes": "sample_n_bytes -i %d" % w,
+            "sample_byte_format": ("sample_byte_format -s2 %s" % coding[3:]) if coding.startswith("pcm") else "sample_byte_format -s1 1",
+            "sample_coding": "sample_coding -s3 pcm" if coding.startswith("pcm") else "sample_coding -s4 %s" % coding,
+            "end_head": "end_head"}
+    cross = lay["cross"]
+    order = [f for f in ESSENTIAL[lay["rot"] % 6:] + ESSENTIAL[:lay["rot"] % 6] if f != cross]
+    split = len(order) if cross == "end_head" else min(lay["split"], len(order))
+    before, after = order[:split], order[split:]
+    cross_line = (_filler_line(99, 33) if cross == "filler" else (text[cross] + "\n").encode())
+    at = lay["at"]
+    if at < 0:
+        at = len(cross_line) + 1 + at  # -1: newline on byte 1023, -2: newline on byte 1024
+    assert 1 <= at <= len(cross_line)
+    buf = ("NIST_1A\n%7d\n" % hdr).encode()
+    for f in before:
+        buf += (text[f] + "\n").encode()
+    buf, idx = _fill_to(buf, 1024 - at, 0)
+    buf += cross_line
+    assert buf[:1024].count(b"\n") >= 2 and len(buf) >= 1024
+    if cross != "end_head":
+        if hdr >= 3072:
+            for f in after[: len(after) // 2]:
+                buf += (text[f] + "\n").encode()
+            buf, idx = _fill_to(buf, 2048 - 1 - (at % 30), idx)  # the next descriptive line straddles byte 2048
+            buf += _filler_line(idx, 33)
+            idx += 1
+            after = after[len(after) // 2:]
+        else:
+            buf += _filler_line(idx, 25)
+            idx += 1
+        for f in after:
+            buf += (text[f] + "\n").encode()
+        buf += b"end_head\n"
+    assert len(buf) <= hdr and buf.index(b"\nend_head\n") + 1 + 9 >= 1024  # end_head ends at or after the block boundary
+    return buf.ljust(hdr, b" ")
+
+
 def data_bytes(values: np.ndarray, coding: str) -> bytes:
     if coding == "pcm01":
         return values.astype("<i2").tobytes()
@@ -132,7 +211,11 @@ def build_file(case: dict):
     assert 0 <= cut <= len(body)
     body = body[: len(body) - cut]
     present = len(body) // (c * sample_width(coding))
-    return build_header(c, n, coding, case["hdr"], case.get("extra", False)) + body, values, present
+    if case.get("long") is not None:
+        header = build_long_header(c, n, coding, case["hdr"], case["long"])
+    else:
+        header = build_header(c, n, coding, case["hdr"], case.get("extra", False))
+    return header + body, values, present
 
 
 def read(case: dict, blob: bytes, tmpdir: str, util):
@@ -318,6 +401,28 @@ def enumerate_cases(tier: str, seed: int):
             for dtype in (None, "uint8", "int8", "int16", "int32", "float32", "float64"):
                 for via in ("bytes", "path"):
                     yield dict(kind="codes256", c=c, n=256 // c, coding=coding, hdr=1024, seed=seed, via=via, dtype=dtype)
+    # 1b. headers whose field list (not just the padding) runs past byte 1024
+    i = 0
+    rng_l = _common.make_rng(seed, "c12long")
+    for at in (-1, -2, 1, 2, "mid", "rand"):
+        for cross in CROSS_LINES:
+            for rot in range(6):
+                for split in ((0, 3, 5) if cross != "end_head" else (5,)):
+                    if quick and at == "rand" and (rot + split) % 2:
+                        continue
+                    for hdr in (2048, 3072):
+                        i += 1
+                        coding = CODINGS[(i // 2 + rot) % 4]
+                        c = (1, 2, 3)[(i // 2 + split) % 3]
+                        per = BLOCK // (c * sample_width(coding))
+                        n = (7, 50, per + 1, 1)[(i // 2 + rot // 2) % 4]
+                        # length of the crossing line for this (c, n, coding) decides what 'mid' / 'rand' mean
+                        ln = {"filler": 33, "end_head": 9, "channel_count": 18 + len(str(c)), "sample_count": 17 + len(str(n)), "sample_rate": 20,
+                              "sample_n_bytes": 19, "sample_byte_format": 25 if coding.startswith("pcm") else 24,
+                              "sample_coding": 22 if coding.startswith("pcm") else 23}[cross]
+                        a = at if isinstance(at, int) else (ln // 2 if at == "mid" else int(rng_l.integers(3, ln - 1)))
+                        yield dict(kind="longhdr", c=c, n=n, coding=coding, hdr=hdr, seed=seed, via=("bytes", "path", "file")[i % 3], dtype=None,
+                                   long=dict(cross=cross, at=a, rot=rot, split=split))
     # 2. channel counts that do not divide the block, counts around multiples of the block
     chans = [3, 5, 6, 7, 1, 2, 4, 8]
     ks_main = (1, 2, 3) if quick else (1, 2, 3, 4, 5)
@@ -440,13 +545,16 @@ def run(tier: str, seed: int) -> dict:
     col.note("cases per kind: %s; %d decoded files span more than one 16 KiB read with a frame size not dividing 16384" % (stats, crossing))
     col.note("G.711: both tables compared with the ITU-T expansion algorithm on ALL 256 codes (exhaustive), "
              "and all 256 codes of each law decoded through the reader for mono and stereo and 7 dtype requests")
+    col.note("longhdr: %d files whose field list reaches or passes byte 1024 (end_head in the 2nd block for header 2048, 3rd block for 3072, or itself straddling / ending on the block boundary); each of channel_count, sample_count, "
+             "sample_rate, sample_n_bytes, sample_byte_format, sample_coding occurs before, across and after byte 1024" % stats.get("longhdr", 0))
     col.note("sample_count 0 is not enumerated: the reader treats a zero mandatory field as missing and raises IOError "
              "(n >= 1 throughout); pcm wider than 16 bit and files with trailing extra bytes are outside the statement")
     return col.result(
         rule="one case = one synthetic SPHERE file (built here from c, n, coding, byte order, header size, cut) read by one access "
              "path with one dtype request; non-trivial when at least one whole frame is present (all table/bad-header cases count)",
         bound="c in 1..8; n in {1,2,7} and k*16384/(c*w)+-2 for k<=%s plus seeded random n <= 4 blocks; pcm16 LE/BE, ulaw, alaw; "
-              "header 1024/2048; cuts of 1..3 frames, mid-frame, at block boundaries, whole data section; 3 access paths; "
+              "header 1024/2048 padded, 2048/3072 with the field list past byte 1024 (8 crossing lines x 6 offsets incl. newline on byte 1023/1024 x "
+              "18 placements of the needed fields before/after byte 1024); cuts of 1..3 frames, mid-frame, at block boundaries, whole data section; 3 access paths; "
               "14 malformed-header kinds; G.711 tables exhaustive (256 codes x 2)" % ("3" if tier == "quick" else "5"),
         assumptions=["A-IO-STREAM", "A-NP-CAT", "A-NP-SLICE"],
     )
